@@ -72,7 +72,7 @@ func (s *Session) evString(added, removed bool, key, av, rv interface{}) string 
 func (s *Session) Exec2(t []string, num func(int) uint64) (obs, viol string, handled bool) {
 	tree := func(i int) *mast.Mast { return s.Trees[int(num(i))] }
 	switch t[0] {
-	case "diff", "diffc", "diffstop", "differr", "diffloads":
+	case "diff", "diffc", "diffcr", "diffstop", "differr", "diffloads":
 		var old *mast.Mast
 		oldO := map[uint64]uint64{}
 		if t[1] != "-" {
@@ -116,15 +116,24 @@ func (s *Session) Exec2(t []string, num func(int) uint64) (obs, viol string, han
 				}
 				return strings.TrimSpace(fmt.Sprintf("%d %s", len(names), strings.Join(names, " "))), viol, true
 			}
-		case "diffc":
+		case "diffc", "diffcr":
 			dc, err := nw.StartDiff(s.ctx, old)
 			if err != nil {
 				return errClass(err), "StartDiff failed: " + err.Error(), true
 			}
+			retried := false
 			for {
 				d, err := dc.NextEntry(s.ctx)
 				if err == mast.ErrNoMoreDiffs {
 					break
+				}
+				if err != nil && t[0] == "diffcr" && !retried {
+					// the same call, on the same cursor, once more (an injected fault has cleared by now)
+					retried = true
+					d, err = dc.NextEntry(s.ctx)
+					if err == mast.ErrNoMoreDiffs {
+						break
+					}
 				}
 				if err != nil {
 					return errClass(err), "NextEntry failed on a healthy store: " + err.Error(), true
